@@ -266,16 +266,17 @@ def run_match(ctx, n, doc, strict, op, ids):
 
 def gen(ctx):
     rng = ctx.rng
-    full = ctx.thorough
+    deep = ctx.thorough
+    full = True
     k = 0
-    for fam, text in docs.object_product(rng, exhaustive=False, samples=3000 if full else 500):
+    for fam, text in docs.object_product(rng, exhaustive=deep, samples=3000):
         yield 'text', dict(family=fam, text=text, max_batch=None)
     for fam, text in docs.singles(rng, full):
         yield 'text', dict(family=fam, text=text, max_batch=None)
-    for fam, text, n in docs.batches(rng, 3 if full else 2, 4000 if full else 400, 6):
+    for fam, text, n in docs.batches(rng, 3, 50000 if deep else 4000, 6):
         k += 1
         yield 'text', dict(family=fam, text=text, max_batch=(None, 1, 3, 0)[k % 4])
-    for fam, text in docs.nonjson(rng, per_doc=10 ** 6 if full else 10, random_texts=5000 if full else 300):
+    for fam, text in docs.nonjson(rng, per_doc=10 ** 6 if full else 10, random_texts=100000 if deep else 5000):
         yield 'text', dict(family=fam, text=text, max_batch=None)
     for fam, text in docs.numbers(False):
         yield 'text', dict(family=fam, text=text, max_batch=None)
@@ -291,9 +292,9 @@ def gen(ctx):
         grid = c09.backoff_grid(n)
         scripts = list(itertools.product(c09._OUT, repeat=min(n + 2, 3)))
         if n >= 2:
-            scripts = [tuple(rng.choice(c09._OUT) for _ in range(n + 2)) for _ in range(2000 if full else 200)]
+            scripts = [tuple(rng.choice(c09._OUT) for _ in range(n + 2)) for _ in range(20000 if deep else 2000)]
             scripts += [tuple(rng.choice(['listed', 'exc-listed', 'exc-sub']) for _ in range(n + 1)) + (rng.choice(c09._OUT),)
-                        for _ in range(1000 if full else 150)]
+                        for _ in range(10000 if deep else 1000)]
         for script in scripts:
             k += 1
             spec = grid[(k * 5) % len(grid)]
@@ -314,7 +315,7 @@ def gen(ctx):
             k += 1
             if full or k % 3 == 0:
                 yield 'notation', dict(calls=[c], notation=notation, strict=bool(k % 4), base='custom' if k % 3 == 0 else 'default')
-    for _ in range(4000 if full else 400):
+    for _ in range(50000 if deep else 4000):
         n = rng.randint(1, 4)
         notation = rng.choice(c07.NOTATIONS_BATCH)
         src = positional if notation == 'getitem' else pool
